@@ -103,7 +103,13 @@ func (s *stream) SetResumeAll(resumeAll bool) {
 func (s *stream) GetPartitions() map[int32]*partition {
 	s.mu.RLock()
 	defer s.mu.RUnlock()
-	return s.partitions
+	// Return a copy since callers iterate the map without holding the lock
+	// while the FSM may add or replace partitions.
+	partitions := make(map[int32]*partition, len(s.partitions))
+	for id, partition := range s.partitions {
+		partitions[id] = partition
+	}
+	return partitions
 }
 
 // GetPartition returns the partition with the given ID or nil if there is no
